@@ -231,6 +231,9 @@ func bfgs(f_ Objective, f ObjectiveInSitu, x0 Vector, H0 Matrix, epsilon Epsilon
   if t1.Vnorm(g1).GetFloat64() < epsilon.Value {
     return x1, nil
   }
+  if math.IsNaN(t1.GetFloat64()) || math.IsNaN(y1.GetFloat64()) {
+    return x1, fmt.Errorf("NaN value detected")
+  }
   // execute hook if available
   if hook.Value != nil && hook.Value(x1, g1, y1) {
     return x1, nil
@@ -283,6 +286,9 @@ func bfgs(f_ Objective, f ObjectiveInSitu, x0 Vector, H0 Matrix, epsilon Epsilon
       // evaluate stop criterion
       if t1.Vnorm(g2).GetFloat64() < epsilon.Value {
         break
+      }
+      if math.IsNaN(t1.GetFloat64()) || math.IsNaN(y2.GetFloat64()) {
+        return x1, fmt.Errorf("NaN value detected")
       }
       if first_update {
         // compute heuristic steplength y^T s / (y^T y)
